@@ -300,6 +300,7 @@ where
     let mut calls = vec![];
     let mut rets: Vec<Vec<u32>> = vec![];
     let mut ids: Vec<u32> = vec![0];
+    let mut mirrored: Vec<u32> = vec![];
     let n = rng.range(1, cfg.max_calls);
 
     let small = |rng: &mut Rng| -> u64 {
@@ -328,6 +329,7 @@ where
         let mut pending: Vec<Call> = vec![];
         let mut extra_pub: Option<F> = None;
         let mut extra_priv: Option<F> = None;
+        let mut is_mirror = false;
         match choice {
             0..=7 => pending.push(Call::Const(small(rng))),
             8..=15 => {
@@ -395,6 +397,24 @@ where
                     }
                 }
             }
+            88..=91 if mirrored.len() >= 2 && rng.chance(1, 3) => {
+                // connect two mirrored (duplicate) results, whether or not their base values
+                // agree: chains of rewrites through shared output slots
+                let a = *rng.pick(&mirrored);
+                let bb = *rng.pick(&mirrored);
+                if a != bb {
+                    pending.push(Call::Conn(a, bb));
+                }
+            }
+            88..=91 if rng.chance(1, 12) => {
+                // wild connect: any two expressions (the program may become unsatisfiable at
+                // the base inputs; the oracle then expects the run to fail)
+                let a = pick(rng, &ids);
+                let bb = pick(rng, &ids);
+                if a != bb {
+                    pending.push(Call::Conn(a, bb));
+                }
+            }
             88..=91 => {
                 // connect two existing expressions with equal base value
                 let a = pick(rng, &ids);
@@ -419,6 +439,47 @@ where
                     .collect();
                 if !cands.is_empty() {
                     pending.push(Call::ABool(*rng.pick(&cands)));
+                }
+            }
+            92..=94 if rng.chance(1, 2) => {
+                // mirror: re-issue an earlier binary call with one operand replaced by an
+                // expression connected to it -- lowers to an identical op (de-duplication),
+                // often then connected to something else (aliased duplicate outputs)
+                let conns: Vec<(u32, u32)> = calls
+                    .iter()
+                    .filter_map(|c| if let Call::Conn(a, b) = c { Some((*a, *b)) } else { None })
+                    .collect();
+                let alias = |x: u32, rng: &mut Rng| -> Option<u32> {
+                    let c: Vec<u32> = conns
+                        .iter()
+                        .filter_map(|(a, b)| if *a == x { Some(*b) } else if *b == x { Some(*a) } else { None })
+                        .collect();
+                    if c.is_empty() { None } else { Some(*rng.pick(&c)) }
+                };
+                let cands: Vec<Call> = calls
+                    .iter()
+                    .filter(|c| matches!(c, Call::Add(..) | Call::Mul(..) | Call::MulAdd(..) | Call::Sub(..)))
+                    .cloned()
+                    .collect();
+                if !cands.is_empty() {
+                    let mut c = rng.pick(&cands).clone();
+                    let done = match &mut c {
+                        Call::Add(a, b) | Call::Mul(a, b) | Call::Sub(a, b) => {
+                            if let Some(y) = alias(*a, rng) { *a = y; true }
+                            else if let Some(y) = alias(*b, rng) { *b = y; true } else { false }
+                        }
+                        Call::MulAdd(a, b, cc) => {
+                            if let Some(y) = alias(*a, rng) { *a = y; true }
+                            else if let Some(y) = alias(*b, rng) { *b = y; true }
+                            else if let Some(y) = alias(*cc, rng) { *cc = y; true } else { false }
+                        }
+                        _ => false,
+                    };
+                    if done {
+                        is_mirror = true;
+                        pending.push(c);
+                        // tie the mirrored result to an equal-valued expression later on
+                    }
                 }
             }
             95..=96 => {
@@ -474,6 +535,9 @@ where
             for id in &r {
                 if !ids.contains(id) {
                     ids.push(*id);
+                }
+                if is_mirror && !mirrored.contains(id) {
+                    mirrored.push(*id);
                 }
                 last.push(*id);
             }
